@@ -143,6 +143,10 @@ def observe_case(term, sp, res, deep=False):
     return fails, info
 
 
+def _listify(x):
+    return [_listify(e) for e in x] if isinstance(x, tuple) else x
+
+
 def judge(payload, params):
     prop = params['prop']
     facets = set(params['facets'])
@@ -163,6 +167,19 @@ def judge(payload, params):
             stats['states'] += 1
             if nontrivial(prop, st):
                 stats['nontrivial'] += 1
+        rec = params.get('recorded')
+        if rec is not None:
+            # trace validation: the outcome recorded from the real run must be one the specification allows
+            import json as _json
+            key = _json.dumps(_listify(term))
+            if key in rec:
+                stats['trace-events'] += 1
+                e = rec[key]
+                if (e is None and not res['ok']) or (e is not None and e not in res['ex']):
+                    stats['facet:trace-outcome'] += 1
+                    failures.append({'property': prop, 'facet': 'trace-outcome', 'term': B.render(term), 'term_raw': term, 'spelling': 'recorded',
+                                     'hashseed': 0, 'detail': {'recorded': e, 'expected_ok': res['ok'], 'expected_ex': sorted(res['ex'])},
+                                     'expected': {'ok': res['ok'], 'ex': sorted(res['ex']), 'ref': res['ref'], 'caps': list(res['caps'])}})
         for sp in B.spellings(term):
             stats['cases'] += 1
             fails, info = observe_case(term, sp, res, params.get('deep', False))
